@@ -52,8 +52,9 @@ def dependency_visit(F, rep):
         ("Blob", "var"): "the declared type's own variable (key of the ordering map)",
         ("Enum", "var"): "the declared type's own variable (key of the ordering map)",
         ("ExternalDefinition", "var"): "the declared variable itself",
-        ("Blob", "fields"): "type-only children of a type declaration: types are placed first by the partition in compile() (checked below)",
-        ("Enum", "variants"): "type-only children of a type declaration: types are placed first by the partition in compile() (checked below)",
+        # NOTE: Blob.fields / Enum.variants are NOT exempt: the partition in compile() puts type declarations before values,
+        # but among themselves type declarations are only ordered by these edges, and a type that is resolved before the
+        # declaration it names has been checked silently means "anything" (inner_resolve_type copies an Unknown node).
         ("ExternalDefinition", "ty"): "declared type of an external: produces no initialiser code; types are placed first",
         ("Function", "params"): "parameters are binders; their annotation types refer to Blob/Enum which are placed first",
         ("Function", "ret"): "type-only child; types are placed first by the partition in compile()",
